@@ -253,6 +253,8 @@ POOL_KEYS = {
     "PoolConnsAlive": ("pool-closed-conn-kept", "a pool kept a connection whose driver end is closed"),
     "FillAfterClose": ("pool-fill-after-close", "a fill started on a closed pool"),
     "CloseTwice": ("pool-close-twice", "a pool was closed twice"),
+    "NoSelfDeadlock": ("pool-lock-deadlock", "a pool method waits for pool.mu while it holds it (closing a connection whose socket "
+                                             "Close() reports an error re-enters hostConnPool.HandleError); Close/Pick/Size of the pool never return again"),
 }
 
 DEFECT_EXHIBITS = [
@@ -471,6 +473,8 @@ def run(ctx):
     explained = set()
     for v in pviol:
         key, what = POOL_KEYS.get(v["kind"], ("pool-" + v["kind"], v["kind"]))
+        if v["kind"] == "NoSelfDeadlock":
+            key += ":" + ([r["q"] for r in by_sched[v["sched"]] if r["ev"] == "h_lock_dead"] or ["unknown"])[0]
         div = [r["q"] for r in by_sched[v["sched"]] if r["ev"] == "h_diverged"]
         ctx.violation(key, "%s (schedule %d of the Pool.tla graph walk, record %d)" % (what, v["sched"], v["k"]),
                       dict(schedule=[s for s in scheds if s["n"] == v["sched"]][:1], divergence=div, trace=by_sched[v["sched"]][-40:]))
